@@ -1,5 +1,223 @@
-(* C05 — Every compute/persist/optimize entry point agrees (placeholder for the protocol model). *)
-From DA Require Import PyBase.
+(* C05 — "For every array x, x.compute(), dask.compute(x, ...) together with other collections,
+   x.persist(), dask.persist(x), dask.optimize(x), x.optimize() and x.to_delayed() all yield
+   the same values; the persisted and dask-optimized collections keep x's name, chunks and
+   dtype.  Operations applied to a persisted or optimized collection compute the same as
+   when applied to x."
+
+   Statements only; model in theories/Protocol.v (transcriptions of FromGraph._find_layer_key /
+   _inferred_layer_name / _layer, RootAlias._layer, Array.__dask_postpersist__ / from_graph, and
+   the entry points over the task-graph model of Graph.v), proofs in theories/ProtocolFacts.v.
+   The harness (harness/c05.py, model_family) compares `fg_layer` / `root_alias_layer` exactly
+   with the real FromGraph._layer() / RootAlias._layer() on synthetic and real persisted layers. *)
+From Coq Require Import List Bool ZArith PArith.
+From DA Require Import PyBase Graph GraphFacts Protocol ProtocolFacts.
+Import ListNotations.
 Open Scope Z_scope.
-Example C05_placeholder : zsum [1;2;3] = 6. Proof. reflexivity. Qed.
-Print Assumptions C05_placeholder.
+
+(* ---- FromGraph: where the rebuilt collection finds its blocks ----
+   For EVERY layer, expected-keys list, name and block grid: if _layer() does not raise, then
+   every output key (self, b) of the grid is bound to the node the layer held for the SAME block
+   id b, under the source name n chosen by the three rules evaluated on the original layer
+   (expected key present -> own key present -> the unique name covering exactly the grid):
+   data is rekeyed, tasks of another name are bridged by an alias to (n, b) which keeps its task. *)
+Theorem C05_from_graph_keys :
+  forall (layer : dict) (keys : list (name * list Z)) (self : name) (nb : list nat) (out : dict),
+  fg_layer layer keys self nb = FOk out ->
+  forall b, In b (zgrid nb) ->
+  exists n v,
+    source_name layer keys self nb b = Some (KB n b) /\
+    d_get (KB n b) layer = Some v /\
+    (if is_task v && negb (Pos.eqb n self)
+     then d_get (KB self b) out = Some (AliasTo (KB n b)) /\ d_get (KB n b) out = Some v
+     else d_get (KB self b) out = Some v).
+Proof. exact from_graph_keys. Qed.
+
+(* the third rule: the inferred name is THE unique name whose block keys (tuples of the right
+   length) cover exactly the grid *)
+Theorem C05_inferred_name_unique_cover :
+  forall ndim layer grid n, grid <> [] ->
+  (inferred_layer_name ndim layer grid = Some n <->
+   (forall i, In i grid <-> In (KB n i) (map fst layer) /\ length i = ndim) /\
+   (forall n', (forall i, In i grid <-> In (KB n' i) (map fst layer) /\ length i = ndim) -> n' = n)).
+Proof. exact inferred_layer_name_spec. Qed.
+
+(* _layer() raises only the two documented ValueErrors (never KeyError); "cannot find output
+   block" exactly when some block has no source under the three rules *)
+Theorem C05_from_graph_errors :
+  forall layer keys self nb,
+  match fg_layer layer keys self nb with
+  | FOk _ => True
+  | FErrNotFound => exists b, In b (zgrid nb) /\ source_name layer keys self nb b = None /\
+                              keys_by_bid keys [] <> None
+  | FErrDupKeys => keys_by_bid keys [] = None /\ zgrid nb <> []
+  | FErrKeyError => False
+  end.
+Proof. exact from_graph_errors. Qed.
+
+(* every key that is nobody's block of the grid passes through untouched *)
+Theorem C05_from_graph_frame :
+  forall layer keys self nb out,
+  fg_layer layer keys self nb = FOk out ->
+  forall k, (forall b n, In b (zgrid nb) -> k <> KB n b) -> d_get k out = d_get k layer.
+Proof. exact from_graph_frame. Qed.
+
+(* Array.persist: postpersist passes keys = [] and the pinned graph produced our own keys:
+   the rebuilt layer is the persisted layer itself *)
+Theorem C05_from_graph_passthrough :
+  forall layer self nb,
+  (forall b, In b (zgrid nb) -> d_mem (KB self b) layer = true) ->
+  fg_layer layer [] self nb = FOk layer.
+Proof. exact from_graph_passthrough. Qed.
+
+(* ---- the rebuild keeps name, chunks and dtype ---- *)
+Theorem C05_persist_preserves :
+  forall (c : coll) (layer : dict),
+  coll_of_node (rebuild c layer None) = c /\
+  fg_keys (rebuild c layer None) = [] /\ fg_lay (rebuild c layer None) = layer.
+Proof. exact rebuild_preserves. Qed.
+
+Theorem C05_persist_rename :
+  forall c layer r,
+  let c' := coll_of_node (rebuild c layer (Some r)) in
+  c_name c' = rename_get r (c_name c) /\ c_chunks c' = c_chunks c /\ c_dtype c' = c_dtype c.
+Proof. exact rebuild_rename. Qed.
+
+(* ---- the RootAlias pin: (raw name, b) -> (optimized name, b) for every b of the grid;
+        its keys are exactly the advertised keys, its targets exactly the optimized root's
+        keys, in the same order, both without repetition (a bijection) ---- *)
+Theorem C05_pin_keys :
+  forall raw opt nb,
+  (forall b, In b (zgrid nb) ->
+     d_get (KB raw b) (root_alias_layer raw opt nb) = Some (AliasTo (KB opt b))) /\
+  map fst (root_alias_layer raw opt nb) = dask_keys raw nb /\
+  map snd (root_alias_layer raw opt nb) = map AliasTo (dask_keys opt nb) /\
+  NoDup (dask_keys raw nb) /\ NoDup (dask_keys opt nb).
+Proof.
+  intros raw opt nb. split; [intros b Hb; apply root_alias_get; exact Hb|].
+  destruct (root_alias_keys raw opt nb) as [A B].
+  split; [exact A|]. split; [exact B|]. split; apply dask_keys_NoDup.
+Qed.
+
+(* the advertised keys are the row-major grid: block id b is a key iff it is in bounds *)
+Theorem C05_advertised_keys :
+  forall nm nb b, In (KB nm b) (dask_keys nm nb) <-> Forall2 (fun i n => 0 <= i < Z.of_nat n) b nb.
+Proof.
+  intros nm nb b. rewrite <- zgrid_in. unfold dask_keys. rewrite in_map_iff. split.
+  - intros [x [E H]]. inversion E; subst. exact H.
+  - intro H. exists b. auto.
+Qed.
+
+(* ---- all entry points agree (PARTIAL) ----
+   Full claim: x.compute(), dask.compute(x, others), x.persist(), dask.persist(x),
+   dask.optimize(x), x.optimize(), x.to_delayed() yield the same values.
+   Proved, in the task-graph model, for every optimized graph g (any value type, any task
+   functions), every topological order each scheduler may choose, every set of other
+   collections merged into the same graph: compute / dask.compute / persist-then-compute /
+   to_delayed all return, at the advertised keys, exactly the values x.optimize() returns at the
+   optimized root's keys.
+   Missing: (1) that the optimized graph computes the array's denotation (optimizer soundness:
+   C01-C03, C08); (2) dask.optimize, which runs dask's generic graph optimizer over the pinned
+   graph outside this model (known finding F7). *)
+Theorem C05_entrypoints_agree_partial :
+  forall (V : Type) (dflt : V) (g : list (task V)) (o : list key) (raws outs : list key),
+  NoDup (map t_key g) -> topological (dep_graph g) o ->
+  (forall k, In k outs -> defined (dep_graph g) k) ->
+  length raws = length outs -> NoDup raws ->
+  NoDup (map t_key (pinned dflt g raws outs)) ->
+  forall o1 o3 os other o2,
+  topological (dep_graph (pinned dflt g raws outs)) o1 ->
+  topological (dep_graph (pinned dflt g raws outs)) o3 ->
+  length os = length raws -> Forall (topological (dep_graph (pinned dflt g raws outs))) os ->
+  NoDup (map t_key (pinned dflt g raws outs ++ other)) ->
+  topological (dep_graph (pinned dflt g raws outs ++ other)) o2 ->
+  let reference := ep_optimize g outs o in
+  ep_compute dflt g raws outs o1 = reference /\
+  ep_dask_compute dflt g raws outs other o2 = reference /\
+  ep_persist dflt g raws outs o3 = Some reference /\
+  ep_to_delayed dflt g raws outs os = reference.
+Proof.
+  intros V dflt g o raws outs Hnd Ht Hout Hlen Hndr Hndp o1 o3 os other o2 H1 H3 Hlo Hos Hnd2 H2 reference.
+  split; [apply ep_compute_agrees; assumption|].
+  split; [apply ep_dask_compute_agrees; assumption|].
+  split; [apply ep_persist_agrees; assumption | apply ep_to_delayed_agrees; assumption].
+Qed.
+
+(* the hypotheses about the pinned graph are satisfiable whenever the advertised keys are fresh:
+   the optimized graph's order followed by the alias keys schedules it *)
+Theorem C05_pinned_schedulable :
+  forall (V : Type) (dflt : V) (g : list (task V)) (o raws outs : list key),
+  NoDup (map t_key g) -> topological (dep_graph g) o ->
+  (forall k, In k outs -> defined (dep_graph g) k) ->
+  NoDup raws -> (forall r, In r raws -> ~ defined (dep_graph g) r) -> length raws = length outs ->
+  NoDup (map t_key (pinned dflt g raws outs)) /\
+  topological (dep_graph (pinned dflt g raws outs)) (o ++ raws).
+Proof.
+  intros. split; [apply pinned_nodup; assumption | apply pinned_topological; assumption].
+Qed.
+
+(* ---- Examples: the hypotheses are satisfiable on concrete non-trivial inputs ---- *)
+Definition exL : dict :=
+  [ (KB 5%positive [1;0], TaskV 3%positive); (KB 5%positive [0;0], Data 1%positive);
+    (KO 9%positive, TaskV 7%positive); (KB 5%positive [0;1], Data 2%positive);
+    (KB 5%positive [1;1], Data 4%positive); (KB 6%positive [0;0], Data 8%positive) ].
+
+(* dask.persist on a raw expression: a renamed single-name layer, located by block id *)
+Example C05_ex_inferred :
+  fg_layer exL [] 2%positive [2;2]%nat =
+  FOk [ (KB 5%positive [1;0], TaskV 3%positive); (KO 9%positive, TaskV 7%positive);
+        (KB 6%positive [0;0], Data 8%positive);
+        (KB 2%positive [0;0], Data 1%positive); (KB 2%positive [0;1], Data 2%positive);
+        (KB 2%positive [1;0], AliasTo (KB 5%positive [1;0])); (KB 2%positive [1;1], Data 4%positive) ].
+Proof. vm_compute. reflexivity. Qed.
+
+(* two names cover the grid: ambiguous, the documented ValueError *)
+Example C05_ex_ambiguous :
+  fg_layer (exL ++ [(KB 6%positive [0;1], Data 1%positive); (KB 6%positive [1;0], Data 1%positive);
+                    (KB 6%positive [1;1], Data 1%positive)]) [] 2%positive [2;2]%nat = FErrNotFound.
+Proof. vm_compute. reflexivity. Qed.
+
+(* ... unless `keys` names the expected ones *)
+Example C05_ex_expected :
+  exists out,
+  fg_layer (exL ++ [(KB 6%positive [0;1], Data 1%positive); (KB 6%positive [1;0], Data 1%positive);
+                    (KB 6%positive [1;1], Data 1%positive)])
+           [(6%positive, [0;0]); (6%positive, [0;1]); (6%positive, [1;0]); (6%positive, [1;1])]
+           2%positive [2;2]%nat = FOk out /\ d_get (KB 2%positive [0;0]) out = Some (Data 8%positive).
+Proof. eexists. split; vm_compute; reflexivity. Qed.
+
+Example C05_ex_dup_keys :
+  fg_layer exL [(6%positive, [0;0]); (5%positive, [0;0])] 2%positive [2;2]%nat = FErrDupKeys.
+Proof. vm_compute. reflexivity. Qed.
+
+Example C05_ex_pin :
+  root_alias_layer 1%positive 2%positive [2;1]%nat =
+  [ (KB 1%positive [0;0], AliasTo (KB 2%positive [0;0])); (KB 1%positive [1;0], AliasTo (KB 2%positive [1;0])) ].
+Proof. vm_compute. reflexivity. Qed.
+
+(* an optimized graph  1 -> 2, 1 -> 3  with root keys 2, 3, advertised keys 10, 11 *)
+Definition exG : list (task Z) :=
+  [ {| t_key := 1%positive; t_deps := []; t_fun := fun _ => 7 |};
+    {| t_key := 2%positive; t_deps := [1%positive]; t_fun := fun vs => hd 0 vs + 1 |};
+    {| t_key := 3%positive; t_deps := [1%positive; 2%positive]; t_fun := fun vs => zsum vs |} ].
+
+Example C05_ex_entrypoints :
+  let raws := [10; 11]%positive in let outs := [2; 3]%positive in
+  topo_check_b (dep_graph exG) [1; 2; 3]%positive = true /\
+  topo_check_b (dep_graph (pinned 0 exG raws outs)) [1; 2; 10; 3; 11]%positive = true /\
+  ep_optimize exG outs [1; 2; 3]%positive = [Some (Val 8); Some (Val 15)] /\
+  ep_compute 0 exG raws outs [1; 2; 10; 3; 11]%positive = [Some (Val 8); Some (Val 15)] /\
+  ep_persist 0 exG raws outs [1; 2; 3; 11; 10]%positive = Some [Some (Val 8); Some (Val 15)] /\
+  ep_to_delayed 0 exG raws outs [[1; 2; 10; 3; 11]; [1; 2; 3; 10; 11]]%positive = [Some (Val 8); Some (Val 15)].
+Proof. vm_compute. repeat split; reflexivity. Qed.
+
+Print Assumptions C05_from_graph_keys.
+Print Assumptions C05_inferred_name_unique_cover.
+Print Assumptions C05_from_graph_errors.
+Print Assumptions C05_from_graph_frame.
+Print Assumptions C05_from_graph_passthrough.
+Print Assumptions C05_persist_preserves.
+Print Assumptions C05_persist_rename.
+Print Assumptions C05_pin_keys.
+Print Assumptions C05_advertised_keys.
+Print Assumptions C05_entrypoints_agree_partial.
+Print Assumptions C05_pinned_schedulable.
